@@ -15,10 +15,11 @@ Cols == {"size", "hardlinks", "uid", "line_count", "length(name)", "size * 2", "
 LikeA(c) == A1("name", "like", TextL(<<c, "%">>), "")
 Filters == [ all |-> <<"T">>, a |-> <<"A">>, b |-> <<"B">>, c |-> <<"C">>, d |-> <<"D">>, none |-> <<"Z">>,
              one |-> <<"E">>, ab |-> <<"or", "A", "B">>, notd |-> <<"not", "D">>,
-             e |-> <<"F">>, ae |-> <<"or", "A", "F">>, sa |-> <<"or", "S", "A">>, se |-> <<"or", "S", "F">> ]
+             e |-> <<"F">>, ae |-> <<"or", "A", "F">>, sa |-> <<"or", "S", "A">>, se |-> <<"or", "S", "F">>,
+             h |-> <<"H">>, ah |-> <<"or", "A", "H">> ]
 FAtoms == [ A |-> LikeA("a"), B |-> LikeA("b"), C |-> LikeA("c"), D |-> LikeA("d"), Z |-> LikeA("z"),
-            E |-> A1("name", "eq", TextL(<<"a","1",".","t","x","t">>), ""), F |-> LikeA("e"), S |-> LikeA("s"), T |-> A1("length(name)", "gte", IntL(0), "") ]
-SmallOnly == {"a", "b", "none", "one", "ab", "e", "ae", "sa", "se"}      \* filters that keep the sparse giants away from line_count
+            E |-> A1("name", "eq", TextL(<<"a","1",".","t","x","t">>), ""), F |-> LikeA("e"), S |-> LikeA("s"), H |-> LikeA("h"), T |-> A1("length(name)", "gte", IntL(0), "") ]
+SmallOnly == {"a", "b", "none", "one", "ab", "e", "ae", "sa", "se", "h", "ah"}      \* filters that keep the sparse giants away from line_count
 
 Init == fns = <<>> /\ col = "" /\ flt = "" /\ wrap = "" /\ phase = "start"
 Choose == /\ phase = "start"
